@@ -10,9 +10,14 @@
 #include <rime/candidate.h>
 #include <rime/component.h>
 #include <rime/registry.h>
+#include <rime/service.h>
+#include <rime/context.h>
+#include <rime/composition.h>
+#include <rime/menu.h>
 #include <rime/segmentation.h>
 #include <rime/translation.h>
 #include <rime/translator.h>
+#include <rime/schema.h>
 
 using namespace vh;
 
@@ -49,6 +54,23 @@ static void observe(RimeSessionId s, int ret, const std::string& text) {
   if (api->get_status(s, &st)) { composing = st.is_composing; api->free_status(&st); }
   o << " input=" << hex(in ? std::string(in) : std::string()) << " caret=" << api->get_caret_pos(s)
     << " composing=" << composing;
+  // un-read commit buffer (Session::commit_text_) and candidate end positions: read through the private
+  // headers, never through a call that changes state
+  std::vector<size_t> ends;
+  {
+    auto sess = rime::Service::instance().GetSession(s);
+    o << " pending=" << hex(sess ? sess->commit_text() : std::string());
+    if (sess && sess->context() && sess->context()->HasMenu()) {
+      auto& seg = sess->context()->composition().back();
+      int ps = sess->schema() ? sess->schema()->page_size() : 5;
+      size_t start = (seg.selected_index / ps) * ps;
+      for (size_t i = start; i < start + ps; ++i) {
+        auto cand = seg.GetCandidateAt(i);
+        if (!cand) break;
+        ends.push_back(cand->end());
+      }
+    }
+  }
   RIME_STRUCT(RimeContext, ctx);
   if (api->get_context(s, &ctx)) {
     if (ctx.composition.preedit)
@@ -63,7 +85,8 @@ static void observe(RimeSessionId s, int ret, const std::string& text) {
       for (int i = 0; i < ctx.menu.num_candidates; ++i) {
         if (i) o << "|";
         o << hex(std::string(ctx.menu.candidates[i].text)) << ":"
-          << hex(ctx.menu.candidates[i].comment ? std::string(ctx.menu.candidates[i].comment) : std::string());
+          << hex(ctx.menu.candidates[i].comment ? std::string(ctx.menu.candidates[i].comment) : std::string())
+          << ":" << (i < (int)ends.size() ? (long)ends[i] : -1L);
       }
       o << "]";
     } else {
